@@ -346,6 +346,74 @@ func genC04(repo string) (map[string]string, error) {
 	if w.err != nil {
 		return nil, w.err
 	}
+	// the same statements once more, in source order and with their control context: stores, `if <cond> { return nil }`
+	// guards, and sub-key lookups
+	var events, lookups []string
+	var walk func(list []ast.Stmt, ctx []string)
+	render := func(ctx []string) string {
+		var q []string
+		for _, c := range ctx {
+			q = append(q, coqString(c))
+		}
+		return coqList(q)
+	}
+	scan := func(n ast.Node, ctx []string) {
+		ast.Inspect(n, func(n ast.Node) bool {
+			switch n := n.(type) {
+			case *ast.FuncLit, *ast.BlockStmt:
+				return false
+			case *ast.CallExpr:
+				if call, ok := c04IsCall(n, "cache", "Subkey"); ok && len(call.Args) == 2 {
+					lookups = append(lookups, fmt.Sprintf("(%s, %s)", coqString(c04Render(fset, call.Args[1])), render(ctx)))
+				}
+				if sel, ok := n.Fun.(*ast.SelectorExpr); ok && (sel.Sel.Name == "writeCacheGob" || sel.Sel.Name == "writeCacheReader") && len(n.Args) == 3 {
+					events = append(events, fmt.Sprintf("(%s, %s, %s)", coqString("store"), coqString(c04Render(fset, n.Args[1])), render(ctx)))
+				}
+			}
+			return true
+		})
+	}
+	walk = func(list []ast.Stmt, ctx []string) {
+		for _, st := range list {
+			switch st := st.(type) {
+			case *ast.IfStmt:
+				cond := c04Render(fset, st.Cond)
+				if len(st.Body.List) == 1 && st.Else == nil && st.Init == nil {
+					if rs, ok := st.Body.List[0].(*ast.ReturnStmt); ok && len(rs.Results) == 1 && c04Render(fset, rs.Results[0]) == "nil" {
+						events = append(events, fmt.Sprintf("(%s, %s, %s)", coqString("return-nil-if"), coqString(cond), render(ctx)))
+						continue
+					}
+				}
+				if st.Init != nil {
+					scan(st.Init, ctx)
+				}
+				scan(st.Cond, ctx)
+				c := "if " + cond
+				if st.Init != nil {
+					c = "if " + c04Render(fset, st.Init) + "; " + cond
+				}
+				walk(st.Body.List, append(append([]string(nil), ctx...), c))
+				if e, ok := st.Else.(*ast.BlockStmt); ok {
+					walk(e.List, append(append([]string(nil), ctx...), "else-of "+c))
+				} else if st.Else != nil {
+					walk([]ast.Stmt{st.Else}, append(append([]string(nil), ctx...), "else-of "+c))
+				}
+			case *ast.BlockStmt:
+				walk(st.List, ctx)
+			case *ast.RangeStmt:
+				walk(st.Body.List, append(append([]string(nil), ctx...), "for range "+c04Render(fset, st.X)))
+			case *ast.ForStmt:
+				walk(st.Body.List, append(append([]string(nil), ctx...), "for"))
+			default:
+				scan(st, ctx)
+			}
+		}
+	}
+	walk(w.after, nil)
+	b.WriteString("(* after the Sum, in source order with control context: (\"store\", kind, ctx) for writeCacheReader/writeCacheGob(a, kind, ...),\n   (\"return-nil-if\", cond, ctx) for `if cond { return nil }` *)\n")
+	fmt.Fprintf(&b, "Definition gen_store_events : list (string * string * list string) :=\n  [%s].\n", strings.Join(events, ";\n   "))
+	b.WriteString("(* cache.Subkey(_, kind) lookups with control context *)\n")
+	fmt.Fprintf(&b, "Definition gen_lookup_ctx : list (string * list string) :=\n  [%s].\n\n", strings.Join(lookups, ";\n   "))
 	b.WriteString("(* lintcmd/runner/runner.go subrunner.do: hash variable, its NewHash argument is only a debug name *)\n")
 	fmt.Fprintf(&b, "Definition gen_action_key : list comp :=\n  %s.\n\n", c04Comps(w.comps))
 	b.WriteString("(* assignments executed before the Sum, in source order (lhs, rhs) *)\n")
